@@ -8,7 +8,7 @@ import re
 import shutil
 from typing import Callable, Dict, List, Optional
 
-from .. import tlc, naming, cue
+from .. import tlc, naming, cue, cli
 from ..core import Check
 from .. import repo
 from ..writers import akai as aw, roland as rw
@@ -144,7 +144,8 @@ def run(chk: Check):
                 "separator, looks up its own item) for every sequence of <= 3-4 sibling names; each sequence is put into a real tree "
                 "(AKAI files/volumes, Roland samples/volumes/performances, CDDA tracks), every item is addressed by its printed name in "
                 "several spellings, and probe strings (prefixes, case changes, colon forms, extensions, unrelated unicode) are "
-                "resolved by the real ls and compared with the specification's Lookup")
+                "resolved by the real ls and compared with the specification's Lookup; the command line itself (spec/Cli.tla): every "
+                "argument vector up to 3-5 tokens through the real main(), ls vectors executed and compared with the action called directly")
     k = 4 if thorough else 3
     budget = 300 if thorough else 45
     todo = [(p, p.pool, k) for p in plans(thorough)]
@@ -159,6 +160,7 @@ def run(chk: Check):
             picked = [c for c in res.cases if len(c["names"]) == 4 and naming.collision_rich([naming.S(n) for n in c["names"]])]
         for i, c in enumerate(picked):
             check_case(chk, plan, c, chk.seed + i)
+    cli.check(chk, "ls")          # the paths reach ls through the command line as typed (spec/Cli.tla)
     chk.exhaustive = True
     chk.sample({"names": ["A:", "A", ":A"], "printed": ["A:", "A", "A (2)"]})
     chk.assumptions += ["items are identified in ls output by a header value / child name unique to each sibling",
